@@ -46,7 +46,25 @@ def active():
 CVC5_BIN = "/usr/bin/cvc5"
 
 
-def solve(assumptions, goal, timeout_ms, use_cvc5=True):
+def _cvc5(s, timeout_ms):
+    """(status or None, note): the query of solver s decided by the cvc5 binary"""
+    smt = "(set-logic ALL)\n" + s.to_smt2()
+    with tempfile.NamedTemporaryFile("w", suffix=".smt2", delete=False) as f:
+        f.write(smt)
+        fn = f.name
+    try:
+        out = subprocess.run([CVC5_BIN, "--tlimit=%d" % int(timeout_ms), fn], capture_output=True, text=True, timeout=timeout_ms / 1000 + 5)
+        o = out.stdout.strip().splitlines()
+        if o and o[0] == "unsat":
+            return "proved"
+        if o and o[0] == "sat":
+            return "refuted"
+        return None
+    finally:
+        os.unlink(fn)
+
+
+def solve(assumptions, goal, timeout_ms, use_cvc5=True, cvc5_first=False):
     """Return (status, solver, seconds, model_or_reason).  status in
     proved / refuted / unknown.  Proves assumptions => goal."""
     t0 = time.time()
@@ -56,6 +74,14 @@ def solve(assumptions, goal, timeout_ms, use_cvc5=True):
     for a in assumptions:
         s.add(a)
     s.add(z3.Not(goal))
+    if cvc5_first and use_cvc5 and os.path.exists(CVC5_BIN):
+        # obligations marked [cvc5]: quantifier instantiation patterns on which cvc5 is quick and z3 runs into its budget
+        try:
+            st = _cvc5(s, timeout_ms)
+            if st == "proved":
+                return "proved", "cvc5", time.time() - t0, None
+        except Exception:
+            pass
     r = s.check()
     dt = time.time() - t0
     if r == z3.unsat:
@@ -233,7 +259,7 @@ class Explorer:
                 status, extra = "refuted", "python-level condition is False on this path"
         else:
             status, solver, dt, extra = solve(self.assumptions, goal, timeout_ms or self.timeout_ms,
-                                              use_cvc5=(expect == "proved"))
+                                              use_cvc5=(expect == "proved"), cvc5_first="[cvc5]" in name)
         self.solver_s += dt
         if expect == "fail" and status == "proved":
             # a discharged canary is only meaningful on a feasible path: if the path condition itself is
